@@ -22,6 +22,7 @@ import CookModel.Lemmas.UnitKeysBlank
 import CookModel.Lemmas.NoFence
 import CookModel.Lemmas.InlineScanPrefix
 import CookModel.Lemmas.InlineBlank
+import CookModel.Lemmas.BlankBraces
 /-
   C17  Line endings, comments and blank space do not change the recipe.
 
@@ -2912,5 +2913,135 @@ example : SameRecipe (α := Rat) (fun c => c = ' ')
   rw [e1, e2] at h
   exact h
 -- ===== end w9c17inline =====
+
+-- ===== w10c17val =====
+/-! ## Wave 10: braces that hold only blanks and block comments (seeded change C17-10), a `DocWF` witness under
+    INLINE_QUANTITIES. -/
+
+/-- **A braces body that consists only of whitespace and block-comment tokens is "no quantity"** — `comp_body`
+    (`src/parser/step.rs`: `quantity_not_empty = tokens.any(|t| !matches!(t.kind, ws | block comment))`).  The
+    parser stands anywhere in ARBITRARY tokens, in front of `name { q } rest`: `name` holds no `{` and no marker
+    `@ # ~`, `q` only whitespace and block comments (`w10bBlank`).  Then `comp_body` succeeds with the name `name`
+    and `quantity = None`, whatever `q` is — in particular the same as for `q = []` (`@salt{ [- c -] }` against
+    `@salt{}`).  Used alike by `ingredient`, `cookware` and `timer`, which all read their body through `comp_body`
+    and branch on `body.quantity` only. -/
+theorem C17_comment_only_braces_is_no_quantity {α : Type} [Arith α] (s : BP α) (name q rest : List Tok) (ob cb : Tok)
+    (hs : s.toks.drop s.cur = name ++ ob :: (q ++ cb :: rest))
+    (hn : ∀ t ∈ name, (t.kind == .openBrace || isMarker t.kind) = false)
+    (hob : ob.kind = .openBrace) (hcb : cb.kind = .closeBrace)
+    (hq : ∀ t ∈ q, w10bBlank t = true) :
+    ∃ b, (compBody s).1 = some b ∧ b.name = name ∧ b.quantity = none :=
+  w10b_compBody_blank s name q rest ob cb hs hn hob hcb hq
+
+/-- the contrast (so that the statement above is not true of a parser that never reads a quantity): one token
+    between the braces that is neither whitespace nor a block comment, and the body holds the quantity tokens `q` -/
+theorem C17_solid_braces_hold_quantity {α : Type} [Arith α] (s : BP α) (name q rest : List Tok) (ob cb : Tok)
+    (hs : s.toks.drop s.cur = name ++ ob :: (q ++ cb :: rest))
+    (hn : ∀ t ∈ name, (t.kind == .openBrace || isMarker t.kind) = false)
+    (hob : ob.kind = .openBrace) (hcb : cb.kind = .closeBrace)
+    (hq : ∀ t ∈ q, (t.kind == .closeBrace) = false) (hsolid : ∃ t ∈ q, w10bBlank t = false) :
+    ∃ b, (compBody s).1 = some b ∧ b.name = name ∧ b.quantity = some q :=
+  w10b_compBody_solid s name q rest ob cb hs hn hob hcb hq hsolid
+
+/-! non-vacuity: the tokens of `@salt{ [- c -] }` (cursor behind the `@`), and of `@salt{ 1 }` -/
+def C17_w10Toks (q : List Tok) : List Tok :=
+  [tk .at ['@']] ++ ([tk .word "salt".toList] ++ tk .openBrace ['{'] :: (q ++ tk .closeBrace ['}'] :: [tk .ws [' ']]))
+example : ∃ b, (compBody (⟨C17_w10Toks [tk .ws [' '], tk .blockComment "[- c -]".toList, tk .ws [' ']], 1, ⟨0⟩, toyCharSpec, #[], none⟩ : BP Rat)).1
+    = some b ∧ b.name = [tk .word "salt".toList] ∧ b.quantity = none :=
+  C17_comment_only_braces_is_no_quantity _ _ [tk .ws [' '], tk .blockComment "[- c -]".toList, tk .ws [' ']] [tk .ws [' ']] _ _ rfl
+    (by decide) rfl rfl (by decide)
+example : ∃ b, (compBody (⟨C17_w10Toks [tk .ws [' '], tk .int ['1'], tk .ws [' ']], 1, ⟨0⟩, toyCharSpec, #[], none⟩ : BP Rat)).1
+    = some b ∧ b.name = [tk .word "salt".toList] ∧ b.quantity = some [tk .ws [' '], tk .int ['1'], tk .ws [' ']] :=
+  C17_solid_braces_hold_quantity _ _ [tk .ws [' '], tk .int ['1'], tk .ws [' ']] [tk .ws [' ']] _ _ rfl
+    (by decide) rfl rfl (by decide) ⟨tk .int ['1'], by decide, by decide⟩
+
+/-- **Ingredient: blanks and block comments inside braces that hold no quantity, component level.**  The same
+    abstract ingredient `c` (any modifiers, name, alias, note; with or without quantity) spelled with the padding
+    `p` and with the same padding but `E'` inside its empty braces (`padOK`: whitespace and block comments): both
+    parse, each consuming exactly its tokens, and the events are `EvLoose`-related (equal modifiers, quantity —
+    for `c.qty = none`: none on both sides —, names / aliases / notes with the same `text_trimmed()`). -/
+theorem C17_comment_only_braces_ingredient {α : Type} [Arith α] (c : AComp) (p : CPad) (E' : List Tok) (s' s : BP α)
+    (hcs : s'.cs = s.cs) (hext : s'.ext = s.ext) (hsp : s.cs.uws ' ' = true)
+    (hwf : c.wf s.cs s.ext = true) (hE' : padOK s.cs E' = true) (hp : p.ok s.cs = true)
+    (A' ts' rest' A ts rest : List Tok) (hs' : Spells ts' (spellIngredient c { p with e := E' }))
+    (hs : Spells ts (spellIngredient c p))
+    (ht' : s'.toks = A' ++ (ts' ++ rest')) (ht : s.toks = A ++ (ts ++ rest))
+    (hc' : s'.cur = A'.length) (hc : s.cur = A.length) (hrest' : restOK c rest' = true) (hrest : restOK c rest = true)
+    (hrun' : RunAt (baseOff s'.toks) s'.toks) (hrun : RunAt (baseOff s.toks) s.toks) :
+    ∃ ev' ev : Ev α, ingredientP s' = (some ev', { s' with cur := A'.length + ts'.length }) ∧
+      ingredientP s = (some ev, { s with cur := A.length + ts.length }) ∧ EvLoose s.cs ev' ev := by
+  refine C17_ingredient_filler_in_body c c (CompFiller.refl c) { p with e := E' } p s' s hcs hext hsp hwf ?_ hp
+    A' ts' rest' A ts rest hs' hs ht' ht hc' hc hrest' hrest hrun' hrun
+  simp only [CPad.ok, Bool.and_eq_true] at hp ⊢
+  exact ⟨⟨⟨⟨hp.1.1.1.1, hp.1.1.1.2⟩, hp.1.1.2⟩, hp.1.2⟩, hE'⟩
+
+/-- **Cookware**, as `C17_comment_only_braces_ingredient` -/
+theorem C17_comment_only_braces_cookware {α : Type} [Arith α] (c : AComp) (p : CPad) (E' : List Tok) (s' s : BP α)
+    (hcs : s'.cs = s.cs) (hext : s'.ext = s.ext) (hsp : s.cs.uws ' ' = true)
+    (hwf : c.wfCookware s.cs s.ext = true) (hE' : padOK s.cs E' = true) (hp : p.ok s.cs = true)
+    (A' ts' rest' A ts rest : List Tok) (hs' : Spells ts' (spellCookware c { p with e := E' }))
+    (hs : Spells ts (spellCookware c p))
+    (ht' : s'.toks = A' ++ (ts' ++ rest')) (ht : s.toks = A ++ (ts ++ rest))
+    (hc' : s'.cur = A'.length) (hc : s.cur = A.length) (hrest' : restOK c rest' = true) (hrest : restOK c rest = true)
+    (hrun' : RunAt (baseOff s'.toks) s'.toks) (hrun : RunAt (baseOff s.toks) s.toks) :
+    ∃ ev' ev : Ev α, cookwareP s' = (some ev', { s' with cur := A'.length + ts'.length }) ∧
+      cookwareP s = (some ev, { s with cur := A.length + ts.length }) ∧ EvLoose s.cs ev' ev := by
+  refine C17_cookware_filler_in_body c c (CompFiller.refl c) { p with e := E' } p s' s hcs hext hsp hwf ?_ hp
+    A' ts' rest' A ts rest hs' hs ht' ht hc' hc hrest' hrest hrun' hrun
+  simp only [CPad.ok, Bool.and_eq_true] at hp ⊢
+  exact ⟨⟨⟨⟨hp.1.1.1.1, hp.1.1.1.2⟩, hp.1.1.2⟩, hp.1.2⟩, hE'⟩
+
+/-- **Timer**, as `C17_comment_only_braces_ingredient` (`~rest{ [- c -] }` against `~rest{}`: a timer with a name
+    and no quantity on both sides, no "missing quantity" error appears or disappears) -/
+theorem C17_comment_only_braces_timer {α : Type} [Arith α] (c : ATimer) (p : CPad) (E' : List Tok) (s' s : BP α)
+    (hcs : s'.cs = s.cs) (hext : s'.ext = s.ext) (hsp : s.cs.uws ' ' = true)
+    (hwf : c.wf s.cs s.ext = true) (hE' : padOK s.cs E' = true) (hp : p.ok s.cs = true)
+    (A' ts' rest' A ts rest : List Tok) (hs' : Spells ts' (spellTimer c { p with e := E' }))
+    (hs : Spells ts (spellTimer c p))
+    (ht' : s'.toks = A' ++ (ts' ++ rest')) (ht : s.toks = A ++ (ts ++ rest))
+    (hc' : s'.cur = A'.length) (hc : s.cur = A.length) (hrest' : noParenNext rest' = true) (hrest : noParenNext rest = true)
+    (hrun' : RunAt (baseOff s'.toks) s'.toks) (hrun : RunAt (baseOff s.toks) s.toks) :
+    ∃ ev' ev : Ev α, timerP s' = (some ev', { s' with cur := A'.length + ts'.length }) ∧
+      timerP s = (some ev, { s with cur := A.length + ts.length }) ∧ EvLoose s.cs ev' ev := by
+  refine C17_timer_filler_in_body c c (TimerFiller.refl c) { p with e := E' } p s' s hcs hext hsp hwf ?_ hp
+    A' ts' rest' A ts rest hs' hs ht' ht hc' hc hrest' hrest hrun' hrun
+  simp only [CPad.ok, Bool.and_eq_true] at hp ⊢
+  exact ⟨⟨⟨⟨hp.1.1.1.1, hp.1.1.1.2⟩, hp.1.1.2⟩, hp.1.2⟩, hE'⟩
+
+/-! non-vacuity: `@sea salt{ [- to taste -] }` against `@sea salt{ }`, `~rest{ [- c -] }` against `~rest{}`, sources
+    lexed by the model's lexer; both events carry no quantity -/
+def C17_w10Comp : AComp := { name := [tk .word "sea".toList, tk .ws [' '], tk .word "salt".toList] }
+def C17_w10PadC : List Tok := [tk .ws [' '], tk .blockComment "[- to taste -]".toList, tk .ws [' ']]
+def C17_w10Timer : ATimer := { name := some [tk .word "rest".toList] }
+example : render (spellIngredient C17_w10Comp { e := C17_w10PadC }) = "@sea salt{ [- to taste -] }".toList ∧
+    render (spellIngredient C17_w10Comp { e := [tk .ws [' ']] }) = "@sea salt{ }".toList ∧
+    render (spellTimer C17_w10Timer { e := C17_w10PadC }) = "~rest{ [- to taste -] }".toList := by decide
+
+example : ∃ ev' ev : Ev Rat,
+    (ingredientP (⟨lex toyCharSpec (render (spellIngredient C17_w10Comp { e := C17_w10PadC })), 0, ⟨0⟩, toyCharSpec, #[], none⟩ : BP Rat)).1 = some ev' ∧
+    (ingredientP (⟨lex toyCharSpec (render (spellIngredient C17_w10Comp { e := [tk .ws [' ']] })), 0, ⟨0⟩, toyCharSpec, #[], none⟩ : BP Rat)).1 = some ev ∧
+    EvLoose toyCharSpec ev' ev := by
+  obtain ⟨a1, a2⟩ := rtin_lex_spells toyCharSpec 0 (spellIngredient C17_w10Comp { e := C17_w10PadC }) (by decide)
+  obtain ⟨b1, b2⟩ := rtin_lex_spells toyCharSpec 0 (spellIngredient C17_w10Comp { e := [tk .ws [' ']] }) (by decide)
+  obtain ⟨ev', ev, h1, h2, h3⟩ := C17_comment_only_braces_ingredient (α := Rat) C17_w10Comp { e := [tk .ws [' ']] } C17_w10PadC
+    ⟨lex toyCharSpec (render (spellIngredient C17_w10Comp { e := C17_w10PadC })), 0, ⟨0⟩, toyCharSpec, #[], none⟩
+    ⟨lex toyCharSpec (render (spellIngredient C17_w10Comp { e := [tk .ws [' ']] })), 0, ⟨0⟩, toyCharSpec, #[], none⟩
+    rfl rfl (by decide) (by decide) (by decide) (by decide) [] _ [] [] _ [] a1 b1 (by simp [lex]) (by simp [lex]) rfl rfl
+    (by decide) (by decide) a2.base b2.base
+  exact ⟨ev', ev, by rw [h1], by rw [h2], h3⟩
+
+example : ∃ ev' ev : Ev Rat,
+    (timerP (⟨lex toyCharSpec (render (spellTimer C17_w10Timer { e := C17_w10PadC })), 0, ⟨0⟩, toyCharSpec, #[], none⟩ : BP Rat)).1 = some ev' ∧
+    (timerP (⟨lex toyCharSpec (render (spellTimer C17_w10Timer {})), 0, ⟨0⟩, toyCharSpec, #[], none⟩ : BP Rat)).1 = some ev ∧
+    EvLoose toyCharSpec ev' ev := by
+  obtain ⟨a1, a2⟩ := rtin_lex_spells toyCharSpec 0 (spellTimer C17_w10Timer { e := C17_w10PadC }) (by decide)
+  obtain ⟨b1, b2⟩ := rtin_lex_spells toyCharSpec 0 (spellTimer C17_w10Timer {}) (by decide)
+  obtain ⟨ev', ev, h1, h2, h3⟩ := C17_comment_only_braces_timer (α := Rat) C17_w10Timer {} C17_w10PadC
+    ⟨lex toyCharSpec (render (spellTimer C17_w10Timer { e := C17_w10PadC })), 0, ⟨0⟩, toyCharSpec, #[], none⟩
+    ⟨lex toyCharSpec (render (spellTimer C17_w10Timer {})), 0, ⟨0⟩, toyCharSpec, #[], none⟩
+    rfl rfl (by decide) (by decide) (by decide) (by decide) [] _ [] [] _ [] a1 b1 (by simp [lex]) (by simp [lex]) rfl rfl
+    (by decide) (by decide) a2.base b2.base
+  exact ⟨ev', ev, by rw [h1], by rw [h2], h3⟩
+-- ===== end w10c17val =====
 
 end Cook
